@@ -176,6 +176,17 @@ def oracle_c05(ctx):
             fd = first_diff(vals_of(out2), expect)
             if out2["vis"][2] != tuple(shape) or fd:
                 ctx.fail("%s: permuting the cells of all inputs alike does not permute the result alike (%r)" % (case.cmd, fd), {"case": case.describe(), "perm": perm.tolist()})
+        # same logical cells, different memory layout (Fortran order / a transposed view), rank >= 2
+        if len(shape) >= 2:
+            def relayout(a):
+                d = numpy.asfortranarray(numpy.ma.getdata(a))
+                m = numpy.asfortranarray(numpy.ma.getmaskarray(a))
+                return numpy.ma.array(d, mask=m)
+            out4 = eems.run_impl(case.with_inputs([relayout(a) for a in case.inputs]), copy_inputs=False)
+            ctx.count("c05_layout_twins")
+            d = same_outcome(out, out4)
+            if d:
+                ctx.fail("%s: the same cells in Fortran memory order give a different result (%s)" % (case.cmd, d), case.describe())
         # reshape
         rs = reshapes_of(shape)
         if rs:
